@@ -22,16 +22,17 @@ def valid_frame(g, icao):
     if k == 0:
         return g.f_df11(icao)
     if k == 1:
-        return g.f_short(4, icao, (r.getrandbits(14) << 13) | ac13_from_alt25(r.randint(40, 2047)))
+        return g.f_short(4, icao, (r.getrandbits(14) << 13) | ac13_from_alt25(r.choice([40, 40, 41, 2047, r.randint(40, 2047)])))
     if k == 2:
         return g.f_short(5, icao)
     if k == 3:
         return g.f_df17(icao, g.me_ident())
     if k in (4, 5, 6):
-        return g.f_df17(icao, g.me_airpos(r.choice([52.2, 52.21, -33.5]), r.choice([4.1, 4.11, 150.2]), None, None, r.randint(40, 2047)))
+        return g.f_df17(icao, g.me_airpos(r.choice([52.2, 52.21, -33.5]), r.choice([4.1, 4.11, 150.2]), None, None, r.choice([40, 41, 2047, r.randint(40, 2047)])))
     if k == 7:
-        return g.f_df17(icao, me_velocity(r.choice([1, 2]), r.randint(0, 1), r.randint(1, 1023), r.randint(0, 1), r.randint(1, 1023), 0,
-                                          r.randint(0, 1), r.randint(1, 511), r.randint(0, 1), r.randint(0, 127)))
+        return g.f_df17(icao, me_velocity(r.choice([1, 2]), r.randint(0, 1), r.choice([1, 2, 1023, r.randint(1, 1023)]), r.randint(0, 1),
+                                          r.choice([1, 2, 1023, r.randint(1, 1023)]), 0,
+                                          r.randint(0, 1), r.choice([1, 2, 511, r.randint(1, 511)]), r.randint(0, 1), r.randint(0, 127)))
     if k == 8:
         return g.f_df17(icao, g.me_surfpos())
     return g.f_df17(icao, g.me_random_tc(r.choice([20, 21, 22, 31, 0, 23, 28])))
